@@ -138,13 +138,22 @@ int main(int argc, char **argv) {
                 if (vals[0] == 0 && vals[depth - 1] == 0) { printf("0\n"); continue; }
                 if (width < 2) { printf("zerodiv\n"); continue; }
                 for (uint32_t i = 0; i < depth; i++) {
-                    int64_t diff = total - vals[i];
-                    vals[i] = vals[i] - floordiv(diff, (int64_t)width - 1);
+                    /* total may be pinned at +-2^63 while a cell is of the other sign: 128-bit intermediates */
+                    __int128 diff = (__int128)total - (__int128)vals[i];
+                    __int128 w1 = (__int128)width - 1;
+                    __int128 q = diff / w1;
+                    if ((diff % w1 != 0) && (diff < 0)) q--;
+                    vals[i] = (int64_t)((__int128)vals[i] - q);
                 }
                 qsort(vals, depth, sizeof(int64_t), cmp64);
                 int64_t r;
-                if (depth % 2 == 0) r = floordiv(vals[depth / 2] + vals[depth / 2 - 1], 2);
-                else r = vals[depth / 2];
+                if (depth % 2 == 0) {
+                    /* the two middle values may each be close to -2^63: add them in 128 bits */
+                    __int128 s2 = (__int128)vals[depth / 2] + (__int128)vals[depth / 2 - 1];
+                    __int128 q2 = s2 / 2;
+                    if ((s2 % 2 != 0) && (s2 < 0)) q2--;
+                    r = (int64_t)q2;
+                } else r = vals[depth / 2];
                 printf("%" PRId64 "\n", r);
             }
         }
